@@ -15,6 +15,8 @@ seed, padding, write sequence and every segmentation of the byte stream.
 * `rejects_bad_magic`, `rejects_big_padlen`, `accepts_iff`   the header decision
 * `handshake_any_chunking` a well-formed peer handshake completes for every segmentation, consuming
                            exactly `seedLen + hsLen + padLen` bytes and leaving the rest queued
+* `coalesced_with_handshake` handshake ‖ first data in one segment (or any segmentation), then silence:
+                           the data is readable at once, nothing is withheld
 * `rejected_any_chunking`  a rejected header is rejected for every segmentation after `seedLen + hsLen` bytes
 * `interop`               two model endpoints fed each other's handshake in any segmentation both finish
                            with agreeing streams (the model is a consistent implementation of the protocol)
@@ -179,6 +181,53 @@ theorem handshake_any_chunking (P : Prims) (c : Conn) (hc : c.phase = .seed)
   have hr := runs_good P c hc seedP encHdr pad rest rxs padLen hseed hk hhdr hchk hpad
   rw [← hcs] at hr
   exact feedAll_eq P cs hr (hsStep_rank0 P (kdf_rank P _) _)
+
+/-- **Data coalesced with the handshake is delivered, without further traffic.** The peer's whole
+flight `seed ‖ E(header) ‖ padding ‖ rest` (`rest ≠ []` = its first ciphertext) reaches an endpoint
+that still waits for the seed, in ONE segment or in any segmentation, and then the peer sends
+nothing more. The three `ReadFull`s take exactly their bytes (they never over-read, nothing is
+parked in a private buffer), `rest` stays on the socket as non-empty chunks; hence the first `Read`
+does not block — it returns at least one byte — and for every sequence of `Read`s
+`delivered ‖ decrypt(still queued) = decrypt(rest)`. -/
+theorem coalesced_with_handshake (P : Prims) (ks) (hL : P.sxor.Law ks) (c : Conn) (hc : c.phase = .seed)
+    (seedP encHdr pad rest : Bytes) (rxs : Stream) (padLen : Nat)
+    (hseed : seedP.length = seedLen) (hk : kdfStream P (padString (!c.initiator)) seedP = .ok rxs)
+    (hhdr : encHdr.length = hsLen) (hchk : checkHeader (rxs.xor P.sxor encHdr).2 = .ok padLen)
+    (hpad : pad.length = padLen) (hrest : rest ≠ [])
+    (cs : List Bytes) (hcs : cs.flatten = seedP ++ encHdr ++ pad ++ rest) :
+    let c1 := (feedAll P c [] cs).1
+    let q1 := (feedAll P c [] cs).2
+    (∀ max, 0 < max → ∃ c' o q', read P c1 max q1 = some (c', o, q') ∧ o ≠ [] ∧ o.length ≤ max) ∧
+    (∀ outs c' q', Reads P c1 q1 outs c' q' →
+      outs.flatten ++ xorAt (ks c1.rx.key c1.rx.iv) c'.rx.off q'.flatten
+        = xorAt (ks c1.rx.key c1.rx.iv) c1.rx.off rest) := by
+  obtain ⟨_, h2⟩ := handshake_any_chunking P c hc seedP encHdr pad rest rxs padLen hseed hk hhdr hchk hpad cs hcs
+  have hne := feedAll_nonempty P cs c [] (by simp)
+  simp only
+  constructor
+  · intro max hmax
+    have hq1 : (feedAll P c [] cs).2 ≠ [] := by
+      intro h; rw [h] at h2; exact hrest (by simpa using h2.symm)
+    unfold O4.Obfs2.read
+    cases hr : Net.read max (feedAll P c [] cs).2 with
+    | none => exact absurd (Net.read_eq_none.mp hr) hq1
+    | some r =>
+      obtain ⟨chunk, q'⟩ := r
+      obtain ⟨hcn, _, _⟩ := Net.read_props hmax hne hr
+      have hle := Net.read_length_le hr
+      refine ⟨_, _, _, rfl, ?_, ?_⟩
+      · show P.sxor _ _ _ chunk ≠ []
+        rw [hL]
+        intro h
+        have := congrArg List.length h
+        rw [xorAt_length] at this
+        exact hcn (List.length_eq_zero_iff.mp this)
+      · show (P.sxor _ _ _ chunk).length ≤ max
+        rw [hL, xorAt_length]; exact hle
+  · intro outs c' q' hr
+    obtain ⟨r1, _⟩ := reads_spec P hL hr
+    rw [h2] at r1
+    exact r1.symm
 
 /-- **Rejection, any chunking.** If the decrypted header is rejected (`badMagic` or `padTooLong`,
 see `rejects_bad_magic` / `rejects_big_padlen`) the handshake fails with that error for every
